@@ -157,6 +157,15 @@ func (v *PacketDslVisitorImpl) VisitPacketDefinition(ctx *gen.PacketDefinitionCo
 				lengthField = fld
 			}
 
+			if _, exists := fieldMap[fld.Name]; exists {
+				v.BinModel.AddSyntaxError(&model.SyntaxError{
+					Line:            fctx.GetStart().GetLine(),
+					Column:          fctx.GetStart().GetTokenSource().GetCharPositionInLine(),
+					Msg:             "Duplicate field definition for " + fld.Name + " in packet " + name,
+					OffendingSymbol: nil,
+				})
+				continue
+			}
 			fields = append(fields, fld)
 			fieldMap[fld.Name] = fld
 
